@@ -39,6 +39,25 @@ DETECT = {
     "C16-B": ("C16", ["C16"], ""),
     "C17-A": ("C17", ["C17"], "at first only a K-T divergence; pm_trace now has error -> reset/del/exhaust histories with method=process and reports leaked worker processes"),
     "C17-B": ("C17", ["C17"], ""),
+    # second round (the seeding agents were told which ideas had been used already)
+    "C01-C": ("C01", ["C15", "C01"], "batch sampler under-counts a short final batch: caught by the sampler check and by the loader resume oracle"),
+    "C01-D": ("C01", ["C01"], "chain oracle: second checkpoint inside the same snapshot interval after a resume"),
+    "C02-C": ("C02", ["C13", "C02"], "None item right after a checkpoint (Loader look-ahead)"),
+    "C03-C": ("C03", ["C13", "C03"], "state_dict() before the first iter(), abandon, iterate again"),
+    "C03-D": ("C03", ["C03"], "escaped at first: needed an EMPTY user sampler over a non-empty dataset (sampler_len added to the generator)"),
+    "C05-C": ("C05", ["C01", "C05"], "end-of-shard notice overtaking its own buffered batches"),
+    "C06-C": ("C06", ["C02", "C06"], "Prefetcher double counts replayed steps: chain oracle"),
+    "C06-D": ("C06", ["C12", "C06"], "Prefetcher._shutdown no longer joins the reader; was masked by a too broad known-finding classifier (now limited to sources slower than the joins / adversarial timeouts)"),
+    "C07-C": ("C07", ["C01", "C07"], "persistent worker keeps its diff base across epochs (variant of C01-B)"),
+    "C07-D": ("C07", ["C07"], "escaped at first: shallow per-leaf copy - needed list leaves holding mutable elements that are advanced in place (added)"),
+    "C09-C": ("C09", ["C09"], "dead worker skipped at dispatch"),
+    "C09-D": ("C09", ["C09"], "any([0]) is falsy: death of worker 0 only"),
+    "C10-C": ("C10", ["C10"], "only the last start-up acknowledgement's error surfaces"),
+    "C10-D": ("C10", ["C10"], "escaped at first: needed state_dict() before the first iteration with a failing worker_init_fn (added)"),
+    "C12-C": ("C12", ["C12"], "reader checks stop only after an acquire timeout"),
+    "C12-D": ("C12", ["C12"], "via the broken K-T correspondence only (needs a process-worker death while the reader is in a slow source, then reset)"),
+    "C13-C": ("C13", ["C13"], "SamplerWrapper keeps a stale _started after a load"),
+    "C13-D": ("C13", ["C01"], "_sampler_iter_yielded not zeroed on _reset: caught by C01's resume oracle with persistent workers (second epoch), not by C13"),
 }
 
 
